@@ -9,10 +9,8 @@ VERIF = units.VERIF
 
 NA = {
     "C02": "Quantifies over crash points between file-system operations and over directory images; the deciding state is kernel/page-cache state, not a function result. Kani has no file or process model; Verus would need the whole I/O stack axiomatised, i.e. proving a model, which is a different technique family.",
-    "C03": "Whole-history durability through drop -> thread joins -> kill_logs; depends on worker threads, queues of File handles and fsync semantics. No per-function postcondition expresses 'every accepted commit' without ghost history over DbInner, whose code (Mutex/Condvar/HashMap/closures) neither verifier accepts.",
     "C05": "Concurrency: Kani has no threads; Verus would require rewriting the locking in its permission types (a different program).",
     "C11": "Concurrency plus scheduling of deferred commits across reader locks (Weak<RwLock<Box<dyn TreeReader>>>, is_locked races); same reason as C05.",
-    "C12": "Ordering of fdatasync/msync/ftruncate against page write-back under power loss; the observable is the durable image of files. A typestate encoding would sit on hand-written stubs of BufWriter<File>/VecDeque<(u32,File)> code neither tool parses, i.e. a model.",
     "C15": "Liveness (every commit returns, shutdown terminates) under all wake-up interleavings; the installed deductive back ends prove partial correctness of sequential code only. The termination fact within reach (lookup chains terminate) is proved under C09.",
     "C16": "Fault sequences over every file operation and their effect on later calls and on reopen; the only per-function fact (errors propagate through `?`) is true by construction and decides nothing.",
     "C17": "(a) 'fails without modifying any database file' is a statement about directory contents; (b) the metadata round trip is string formatting/parsing (format!, split, HashMap<&str,&str>, parse): Verus rejects str reasoning and one format! already exceeds CBMC's budget here.",
